@@ -48,6 +48,24 @@ def cases(ctx):
         yield 'node', {'i': i}
 
 
+def collapsible_nodes(g, rm):
+    """variables of nodes that dereification may collapse (reference reading of the documentation): a
+    concept of the table, exactly two relations whose roles are a pair of that concept (either way
+    round), not the top, not the target of any relation"""
+    out = []
+    targets = {t for s_, r_, t in g.triples if r_ != ':instance'}
+    for v, _, c in [t for t in g.triples if t[1] == ':instance']:
+        if not rm.dereifiable(c) or v == g.top or v in targets:
+            continue
+        rels = [t for t in g.triples if t[0] == v and t[1] != ':instance']
+        if len(rels) != 2:
+            continue
+        pair = {rels[0][1], rels[1][1]}
+        if any({d[1], d[2]} == pair for d in rm.dereifications(c)):
+            out.append(v)
+    return out
+
+
 def role_pool(rm):
     return [r for r in AMR_ROLES if (not rm.reifiable(r)) or rm.unambiguous(r)]
 
@@ -130,6 +148,11 @@ def oracle(ctx, kind, p):
         mname = MODELS_R[p['i'] % len(MODELS_R)]
         _, model, rm, _ = M.get(mname)
         concepts = [c for c in CONCEPTS if not rm.dereifiable(c)]
+        lookalikes = p['i'] % 5 == 2
+        if lookalikes:
+            # nodes that *look* like reified relations (a concept of the table) but are not collapsible:
+            # roles that do not fit, a third relation, the top, a node referred to elsewhere
+            concepts = concepts + sorted({r[1] for r in rm.reifications}) * 2
         if p['i'] % 8 == 7:
             # enough reifiable relations for the generated variables to reach _10, _11 ...
             pool = [r for r in role_pool(rm) if rm.reifiable(r)] or role_pool(rm)
@@ -142,6 +165,12 @@ def oracle(ctx, kind, p):
         ok, g = ctx.call(layout.interpret, Tree(node), model, clause='pre-interpret')
         if not ok:
             return
+        if lookalikes:
+            if collapsible_nodes(g, rm):
+                ctx.count('skipped:collapsible-node-in-input')
+                return
+            if any(rm.dereifiable(t) for s_, r_, t in g.triples if r_ == ':instance'):
+                ctx.count('lookalike_relation_nodes')
         nre = check_graph(ctx, g, mname, node)
         ctx.case(ctx.current, bool(nre))
         ctx.count('model:' + ('rand' if mname.startswith('rand') else mname))
@@ -176,8 +205,15 @@ def oracle(ctx, kind, p):
         if k == 'one':
             rel = [x for x in rel if x[1] != tr]
         triples = tri[:]
-        pos = rng.randrange(0, len(triples) + 1)
-        triples[pos:pos] = rel
+        if rng.random() < 0.5:
+            pos = rng.randrange(0, len(triples) + 1)
+            triples[pos:pos] = rel
+        else:
+            # the node's triples are not next to each other (a relation written from elsewhere before
+            # the node itself, edited or shuffled graphs)
+            for x in rel:
+                triples.insert(rng.randrange(0, len(triples) + 1), x)
+            ctx.count('scattered_relation_node')
         g = Graph(triples, top='r' if k == 'top' else 'a')
         ctx.count('kind:' + k)
         ok, d = ctx.call(transform.dereify_edges, g, model, clause='dereify_edges(explicit)')
